@@ -182,8 +182,16 @@ int read_header(sqfs_istream_t *fp, tar_header_decoded_t *out)
 			goto fail;
 		}
 
-		if ((size_t)ret < sizeof(hdr))
+		if (ret == 0)
 			goto out_eof;
+
+		if ((size_t)ret < sizeof(hdr)) {
+			fprintf(stderr, "%s: unexpected end-of-file inside a "
+				"tar header (%d of %u bytes)\n",
+				fp->get_filename(fp), ret,
+				(unsigned int)sizeof(hdr));
+			goto fail;
+		}
 
 		if (is_memory_zero(&hdr, sizeof(hdr))) {
 			if (prev_was_zero)
